@@ -100,6 +100,7 @@ func main() {
 		nats.Stop()
 		os.Exit(0)
 	}
+	ev.Supervise("C01", ev.ArgTier(), "exploration", "the monitor runs in a child process; a panic or runtime fatal error on a goroutine of the library ends every in-flight request and is a violation attributed to the first library frame of the dying goroutine")
 	run := ev.New("C01", ev.ArgTier(), "exploration")
 	run.Rule("(a) enforced schedules: for k callers sharing one transport, every fate combination (answered / never answered in time), 1..n duplicate responses, late responses and never-issued op ids, ALL interleavings of the hook-delimited steps start/lookup(inject)/deliver/timeout/unregister+return are enumerated (DFS, symmetric copies merged) and enforced on the real adapter and NATS transports; (b) hook-free stress with PRNG response plans and up to 32 concurrent callers; (c) porcupine on the real registry. distinct = distinct (leg, plan, schedule) strings executed + distinct stress plan shapes")
 	run.Assume("yield points compiled in with -tags verif do not change behaviour when no goroutine is parked")
